@@ -295,7 +295,7 @@ def fired(C, sc, case, cfg_text, subject):
         return m is not None and m.decision == case["dec"]
     if kind == "after":
         return C.match_after(list(subject), cfg, cwd) == "fb"
-    m = C._match_words(list(subject), cfg, cwd)
+    m = C._match_words(list(subject), cfg, cwd, remote=bool(case.get("remote")))
     return m is not None and m.decision == case["dec"]
 
 
